@@ -39,7 +39,7 @@ func init() {
 	workers["c17buf"] = c17BufWorker
 }
 
-const c17Rule = "history: catalogue struct types x random rows x random writer configuration (gen.RandWriterCfg + bloom filters, deferred blooms, key/value metadata, declared sorting columns, forced dictionary overflow) x instance history: the file written by an instance that was Reset after {abandoned, abandoned after row-by-row writes, flushed, closed, closed empty, failed sink, two generations, reset mid-file, random op sequence, SetKeyValueMetadata} over OTHER rows (for SortingWriter + DropDuplicatedRows also over copies of the row that sorts first in the new content, run sizes 1 / random / > rows) must equal byte-for-byte the file of a fresh instance; instances GenericWriter, Writer, SortingWriter, GenericWriter driven through WriteRowGroup only (rows handed over as an unsorted GenericBuffer / a sorted GenericBuffer declaring sorting columns / the row groups of a file written with the same options / with default options, drawn independently for the earlier content and the content under test; the writer mostly without sorting configuration of its own), catalogue = shared catalogue + GEOMETRY/GEOGRAPHY types (gen.GeoCatalog: WKB values of layouts XY/XYZ/XYM/XYZM drawn per row set, empty geometries, NaN coordinates, non-WKB bytes); repeated fresh writes on the same and on 3 other goroutines, and with the key/value options permuted; non-trivial = non-empty rows and a prior history that wrote rows. buffers (L1, in worker subprocesses: a case that takes the process down is a failure carrying the case): the same catalogue, rows and configurations, GenericBuffer/Buffer under 2 (thorough 4) buffer histories each: 1..3 earlier generations {rows [lo,hi) of the other content; permuted by sort.Sort when sorting columns are declared, else by explicit Swap calls in 2 cases of 3; READ through a discarded WriteRowGroup / Rows() fully or half / the Pages() of all column chunks, of the first, twice / not at all; Reset} then the rows, permuted the same way as on the fresh instance, in 1 case of 4 read once before, -> WriteRowGroup (and: the file written after such a read equals the file written without it); non-trivial as for history. crossbuild: per catalogue type seeded (rows, config, write path) cases and 30k/400k encoder inputs (hybrid RLE int32/levels, delta binary packed, byte stream split), big-page files (one PLAIN column per numeric kind, pages filled to the default 256 KiB target and beyond, values across 2^31 / 2^63, NaN, -0.0) and Page.Bounds of pages at the kernel-switch lengths 32112..131071(..262144) (int32, int64, uint32, uint64, float, double, and 16-byte big-endian values with few distinct high halves at lengths 3..32113) whose sha256 / output bytes the asm and purego builds must agree on (digests exchanged through .build/out/C17-digests-<variant>.json); non-trivial = more than one row / at least 8 values. mirror (L2): a real Writer under a random history (first sink failing around the 4-byte file header and anywhere) vs the Lean mirror (reset.run), observation compared after every step; all cases non-trivial. repr (L1): catalogue types x random rows x the same rows RESPELLED (equal values in another memory layout: empty strings with a non-nil data pointer, strings / []byte at odd offsets inside larger arrays, slices with spare capacity, re-allocated pointers) x 4 (thorough: 6) write paths: byte-identical files; non-trivial = at least one value respelled; a third of the cross-build corpus is respelled too. hist (L1+L2): accumulateAndAppendPageLevelHistogram on slices with k earlier pages and a capacity of need-1, need, need+1, 2x, ... whose spare part holds zeros / earlier counts / -1, levels of 0..200 values in runs: appended block = the counts of the page (L1) and column histogram, slice, spare capacity = the Lean mirror ResetHist.appendPage (L2); real Writers of every catalogue type with a nullable or repeated column, abandoned mid row group / flushed / closed over other rows, then Reset (histogram fields and the arrays behind them before/after vs ResetHist.LevelHist.reset), then the rows in 1..3 row groups: every chunk's SizeStatistics / ColumnIndex level histograms vs the spec (LevelStats.chunkHists) of the levels decoded from its own pages; non-trivial = a page with levels appended to a slice with spare capacity / every writer case. slots (L2): per catalogue type a GenericWriter with default options (one in four declaring sorting columns) x 1..8 ops {WriteRowGroup of a 1..5-row GenericBuffer declaring 0..2 sorting columns (sorted), Close+Reset}: the row groups the footer of the last file lists (column chunks, sorting_columns absent / empty / entries) vs the Lean mirror slots.run; non-trivial = at least one Reset and two row groups." + c17BufResetRule
+const c17Rule = "history: catalogue struct types x random rows x random writer configuration (gen.RandWriterCfg + bloom filters, deferred blooms, key/value metadata, declared sorting columns, forced dictionary overflow) x instance history: the file written by an instance that was Reset after {abandoned, abandoned after row-by-row writes, flushed, closed, closed empty, failed sink, two generations, reset mid-file, random op sequence, SetKeyValueMetadata} over OTHER rows (for SortingWriter + DropDuplicatedRows also over copies of the row that sorts first in the new content, run sizes 1 / random / > rows) must equal byte-for-byte the file of a fresh instance; instances GenericWriter, Writer, SortingWriter, GenericWriter driven through WriteRowGroup only (rows handed over as an unsorted GenericBuffer / a sorted GenericBuffer declaring sorting columns / the row groups of a file written with the same options / with default options, drawn independently for the earlier content and the content under test; the writer mostly without sorting configuration of its own), catalogue = shared catalogue + GEOMETRY/GEOGRAPHY types (gen.GeoCatalog: WKB values of layouts XY/XYZ/XYM/XYZM drawn per row set, empty geometries, NaN coordinates, non-WKB bytes); repeated fresh writes on the same and on 3 other goroutines, and with the key/value options permuted; non-trivial = non-empty rows and a prior history that wrote rows. buffers (L1, in worker subprocesses: a case that takes the process down is a failure carrying the case): the same catalogue, rows and configurations, GenericBuffer/Buffer under 2 (thorough 4) buffer histories each: 1..3 earlier generations {rows [lo,hi) of the other content; permuted by sort.Sort when sorting columns are declared, else by explicit Swap calls in 2 cases of 3; READ through a discarded WriteRowGroup / Rows() fully or half / the Pages() of all column chunks, of the first, twice / not at all; Reset} then the rows, permuted the same way as on the fresh instance, in 1 case of 4 read once before, -> WriteRowGroup (and: the file written after such a read equals the file written without it); non-trivial as for history. crossbuild: per catalogue type seeded (rows, config, write path) cases and 30k/400k encoder inputs (hybrid RLE int32/levels, delta binary packed, byte stream split), big-page files (one PLAIN column per numeric kind, pages filled to the default 256 KiB target and beyond, values across 2^31 / 2^63, NaN, -0.0) and Page.Bounds of pages at the kernel-switch lengths 32112..131071(..262144) (int32, int64, uint32, uint64, float, double, and 16-byte big-endian values with few distinct high halves at lengths 3..32113) whose sha256 / output bytes the asm and purego builds must agree on (digests exchanged through .build/out/C17-digests-<variant>.json); non-trivial = more than one row / at least 8 values. mirror (L2): a real Writer under a random history (first sink failing around the 4-byte file header and anywhere) vs the Lean mirror (reset.run), observation compared after every step; all cases non-trivial. repr (L1): catalogue types x random rows x the same rows RESPELLED (equal values in another memory layout: empty strings with a non-nil data pointer, strings / []byte at odd offsets inside larger arrays, slices with spare capacity, re-allocated pointers) x 4 (thorough: 6) write paths: byte-identical files; non-trivial = at least one value respelled; a third of the cross-build corpus is respelled too. hist (L1+L2): accumulateAndAppendPageLevelHistogram on slices with k earlier pages and a capacity of need-1, need, need+1, 2x, ... whose spare part holds zeros / earlier counts / -1, levels of 0..200 values in runs: appended block = the counts of the page (L1) and column histogram, slice, spare capacity = the Lean mirror ResetHist.appendPage (L2); real Writers of every catalogue type with a nullable or repeated column, abandoned mid row group / flushed / closed over other rows, then Reset (histogram fields and the arrays behind them before/after vs ResetHist.LevelHist.reset), then the rows in 1..3 row groups: every chunk's SizeStatistics / ColumnIndex level histograms vs the spec (LevelStats.chunkHists) of the levels decoded from its own pages; non-trivial = a page with levels appended to a slice with spare capacity / every writer case. slots (L2): per catalogue type a GenericWriter with default options (one in four declaring sorting columns) x 1..8 ops {WriteRowGroup of a 1..5-row GenericBuffer declaring 0..2 sorting columns (sorted), Close+Reset}: the row groups the footer of the last file lists (column chunks, sorting_columns absent / empty / entries) vs the Lean mirror slots.run; non-trivial = at least one Reset and two row groups." + c17BufResetRule + c17CacheRule
 
 // ---------------------------------------------------------------- configuration
 
